@@ -138,6 +138,15 @@ def node_tree(t) -> str:
     return t[len("Node@"):]
 
 
+def is_ref(t) -> bool:
+    """a reference to a heap-allocated object of class C (`Ref@C`): its index in the heap (a list of records of STRUCTS[C])"""
+    return isinstance(t, str) and t.startswith("Ref@")
+
+
+def ref_class(t) -> str:
+    return t[len("Ref@"):]
+
+
 # EXTENSION HOOKS: further Python constructs / idioms and their meaning can be added WITHOUT editing this file, from a plugin
 # (harness/algo_specs/*.py is executed in this namespace): a hook is tried before the built-in rules and returns None when it does not apply.
 TYPE_HEADS = {}        # name of a unary / n-ary type constructor -> arity            ("Col": 1)
@@ -152,6 +161,10 @@ def show_type(t) -> str:
         if r is not None:
             return r
     if isinstance(t, str):
+        if is_ref(t):
+            return "Int"                               # an object reference is its index in the heap
+        if t in ("PyVal", "PyAtom"):                   # dynamically typed values (Model/PyObjHeap.lean)
+            return "Py." + t[2:]
         if t == "Tree":                            # a tree-valued EXPRESSION (`node.subtree()`): its two topology columns (id, pid)
             return "((List Int) × (List Int))"
         if t == "Frac":                            # the exact value of `a / b` on Python ints: the pair (a, b), b ≠ 0 (the float is its rounding)
@@ -242,6 +255,10 @@ class Fn:
     fparams: list = field(default_factory=list)     # lean binders of PURE function parameters (the text level abstracted: `(blank : L → Bool)`)
     absent: list = field(default_factory=list)      # optional parameters NOT passed in this instantiation (their value is None): the definition is the
                                                     # specialisation of the function to one of its @overload signatures
+    heap: dict = field(default_factory=dict)        # class name of heap-allocated objects -> python text of the variable holding the heap
+                                                    # (a list of records STRUCTS[class]); references (`Ref@class`) are indices into it
+    rec_group: str | None = None                    # mutually recursive functions: the members of a group are emitted in one `mutual` block,
+                                                    # every one structurally recursive on the fuel
     doc: str = ""
     module: str = "AlgoDsu"                         # generated file Gen/<module>.lean (one per group, so that a change to one
                                                     # source file cannot break the generated module of an unrelated property)
@@ -281,6 +298,8 @@ class FnTr:
         self.vars = {k: parse_type(v) for k, v in spec.vars.items()}
         self.tmp = 0
         self.consts = {}                   # module-level integer constants of the source file (e.g. REMOVAL = -2)
+        self.namedtuples = {}              # `NamedTuple` classes of the source file -> number of fields
+        self.enums = {}                    # `Class.MEMBER` of the `Enum` classes of the source file whose members are `auto()` -> 1, 2, ...
         self.extra_vars = {}               # temporaries introduced by comprehension lowering
         self.aux = []                      # hoisted loop bodies / conditions: (name, lean type, code)
         self.nloop = 0
@@ -383,7 +402,31 @@ class FnTr:
         ty = self.var_type(key)
         return [], f"v.{lname(key)}", ty
 
+    def heap_of(self, cls):
+        """(lean code of the heap variable, lvalue function) of the heap holding the objects of class `cls`"""
+        if cls not in self.spec.heap:
+            raise Untranslatable(f"{self.spec.lean}: no heap for objects of class `{cls}`")
+        ex = ast.parse(self.spec.heap[cls]).body[0].value
+        _, code, _ = self.tr(ex)
+        return code, self.lvalue(ex)
+
+    def deref_opt(self, s0, c, t):
+        """a value that may be `None` used where an object is needed (attribute access): `None` raises"""
+        if isinstance(t, tuple) and t[0] == "Option" and (is_node(t[1]) or is_ref(t[1]) or t[1] in STRUCTS):
+            n0 = self.bindname()
+            return s0 + [f"Py.bind ({c}) fun {n0} =>"], n0, t[1]
+        return s0, c, t
+
+    def is_ref_expr(self, e):
+        try:
+            _, _, t = self.tr(e)
+        except Untranslatable:
+            return False
+        return is_ref(t) or (isinstance(t, tuple) and t[0] == "Option" and is_ref(t[1]))
+
     def e_Attribute(self, e, want):
+        if ast.unparse(e) in self.enums:
+            return [], f"({self.enums[ast.unparse(e)]} : Int)", "Int"
         if ast.unparse(e) in ("np.inf", "numpy.inf"):
             return [], "(none : Option Int)", ("Option", "Int")     # a float that is finite (`some`) or +inf (`none`)
         if e.attr == "shape":
@@ -402,10 +445,17 @@ class FnTr:
                 s0, c, t = self.tr(e.value)
             except Untranslatable:
                 s0, c, t = None, None, None
-            if t is not None and isinstance(t, tuple) and t[0] == "Option" and is_node(t[1]):
-                # a variable that held `None` earlier and is known to hold a node here: reading an attribute of None raises
-                n0 = self.bindname()
-                s0, c, t = s0 + [f"Py.bind ({c}) fun {n0} =>"], n0, t[1]
+            if t is not None:
+                # a variable that held `None` earlier and is known to hold a node / object here: reading an attribute of None raises
+                s0, c, t = self.deref_opt(s0, c, t)
+            if t is not None and is_ref(t):
+                # a field of a heap-allocated object: read through the reference
+                C = ref_class(t)
+                if e.attr not in STRUCTS.get(C, {}):
+                    raise Untranslatable(f"{self.spec.lean}: attribute `{ast.unparse(e)}` of a {C}")
+                hc, _ = self.heap_of(C)
+                n = self.bindname()
+                return s0 + [f"Py.bind (Py.idx {hc} {c}) fun {n} =>"], f"{n}.{lname(e.attr)}", parse_type(STRUCTS[C][e.attr])
             if t is not None and is_node(t):
                 cols = self.spec.tree_cols.get(node_tree(t), {})
                 if e.attr == "idx":
@@ -414,7 +464,7 @@ class FnTr:
                     n = self.bindname()
                     return s0 + [f"Py.bind (Py.idx v.{lname(cols[e.attr])} {c}) fun {n} =>"], n, "Int"
                 raise Untranslatable(f"{self.spec.lean}: node attribute `{ast.unparse(e)}`")
-            if t is not None and isinstance(t, str) and t in STRUCTS and e.attr in STRUCTS[t] and not isinstance(e.value, ast.Name):
+            if t is not None and isinstance(t, str) and t in STRUCTS and e.attr in STRUCTS[t] and (not isinstance(e.value, ast.Name) or s0):
                 # a field of a record that is the value of an expression (`xs[-1].id`)
                 return s0, f"({c}).{lname(e.attr)}", parse_type(STRUCTS[t][e.attr])
         if isinstance(e.value, ast.Name) and e.value.id in self.vars:
@@ -425,8 +475,17 @@ class FnTr:
 
     def e_Tuple(self, e, want):
         steps, codes, tys = [], [], []
-        for x in e.elts:
-            s, c, t = self.tr(x)
+        wants = [None] * len(e.elts)
+        if isinstance(want, tuple) and want[0] == "Prod":
+            # expected component types (`(n, -1)` stored where `(Optional[ASTNode], int)` is declared)
+            try:
+                wants = prod_parts(want, len(e.elts))
+            except Untranslatable:
+                pass
+        for x, w in zip(e.elts, wants):
+            s, c, t = self.tr(x, w)
+            if w is not None and t != w:
+                s, c = self.coerce2(s, c, t, w); t = w
             steps += s; codes.append(c); tys.append(t)
         return steps, "(" + ", ".join(codes) + ")", prod_of(tys)
 
@@ -437,8 +496,11 @@ class FnTr:
                 raise Untranslatable(f"{self.spec.lean}: empty list literal of unknown type")
             return [], f"([] : {show_type(ty)})", ty
         steps, codes, tys = [], [], []
+        w = want[1] if isinstance(want, tuple) and want[0] == "List" else None
         for x in e.elts:
-            s, c, t = self.tr(x)
+            s, c, t = self.tr(x, w)
+            if w is not None and t != w:
+                s, c = self.coerce2(s, c, t, w); t = w
             steps += s; codes.append(c); tys.append(t)
         return steps, "[" + ", ".join(codes) + "]", ("List", tys[0])
 
@@ -458,6 +520,13 @@ class FnTr:
             return code
         if want == "Frac" and have == "Int":
             return f"({code}, (1 : Int))"
+        # the views of one dynamically typed Python value (Model/PyObjHeap.lean)
+        if (have, want) == ("String", "PyAtom"):
+            return f"(Py.Atom.str {code})"
+        if (have, want) == ("String", "PyVal"):
+            return f"(Py.Val.at (Py.Atom.str {code}))"
+        if (have, want) == ("PyAtom", "PyVal"):
+            return f"(Py.Val.at {code})"
         if (isinstance(want, tuple) and want[0] == "List" and isinstance(want[1], tuple) and want[1][0] == "Option"
                 and have == ("List", want[1][1])):
             return f"(({code}).map some)"            # an array of finite floats where an array that may hold `inf` is expected
@@ -467,6 +536,16 @@ class FnTr:
             if isinstance(have, tuple) and have[0] == "Option" and have[1] == "Unit":
                 return f"(none : {show_type(want)})"
         raise Untranslatable(f"{self.spec.lean}: a value of type {have} where {want} is expected (`{code}`)")
+
+    def coerce2(self, steps, code, have, want):
+        """`coerce`, plus the conversions that need a step: a value that may be `None` where an object is required is an error of the typed
+        model when it is `None` (the source passes a variable it has just tested / asserted `is not None`); returns (steps, code)"""
+        if have == want or want is None:
+            return steps, code
+        if isinstance(have, tuple) and have[0] == "Option" and have[1] == want:
+            n0 = self.bindname()
+            return steps + [f"Py.bind ({code}) fun {n0} =>"], n0
+        return steps, self.coerce(code, have, want)
 
     def e_UnaryOp(self, e, want):
         s, c, t = self.tr(e.operand)
@@ -585,6 +664,9 @@ class FnTr:
             return s1 + s2, f"(Py.leMask {a} {b})", ("List", "Bool")
         if ta == ("List", "Int") and tb == ("List", "Int") and isinstance(op, ast.Lt):
             return s1 + s2, f"(Py.ltMask {a} {b})", ("List", "Bool")
+        if ta in ("PyVal", "PyAtom") and tb == "String" and isinstance(op, (ast.Eq, ast.NotEq)):
+            c = f"(Py.{ta[2:]}.eqStr {a} {b})"
+            return s1 + s2, c if isinstance(op, ast.Eq) else f"(!{c})", "Bool"
         sym = {ast.Eq: "=", ast.NotEq: "≠", ast.Lt: "<", ast.LtE: "≤", ast.Gt: ">", ast.GtE: "≥"}.get(type(op))
         if sym is None:
             raise Untranslatable(f"comparison `{ast.unparse(op)}`")
@@ -760,7 +842,9 @@ class FnTr:
             save = self.tmp
             g = e.generators[0]
         self.bind_target_types(g.target, elem_t)
-        if kind == "list":
+        if kind == "list" and isinstance(want, tuple) and want[0] == "List":
+            tmp_t = want                   # the elements are stored with the declared element type (`(n, -1)` as `(Optional[ASTNode], int)`)
+        elif kind == "list":
             _, _, et = self.tr(e.elt, want[1] if isinstance(want, tuple) and want[0] == "List" else None)
             tmp_t = ("List", et)
         else:
@@ -897,6 +981,89 @@ class FnTr:
             n = self.bindname()
             steps.append(f"let {n} := {e.func.id} v.cbs {' '.join(codes)}; let v := {{ v with cbs := {n}.1 }};")
             return steps, f"{n}.2", parse_type(rty)
+        # --- a nested function of the source called directly: the translated closure, run on its captured variables (written back afterwards)
+        if isinstance(e.func, ast.Name) and e.func.id in self.spec.closures and not kw:
+            callee = by_lean_global[self.spec.closures[e.func.id]]
+            if callee.fuel and not self.spec.fuel:
+                raise Untranslatable(f"{self.spec.lean} calls {callee.lean} which needs fuel")
+            if callee.callbacks or callee.tparams:
+                raise Untranslatable(f"{self.spec.lean}: direct call of the closure {callee.lean} with callbacks / type parameters")
+            steps, codes = [], []
+            for x, pn in zip(args, callee.params):
+                s0, c, t = self.tr(x, parse_type(callee.vars[pn]))
+                s0, c = self.coerce2(s0, c, t, parse_type(callee.vars[pn]))
+                steps += s0; codes.append(c)
+            caps = callee.captures
+            st0 = "()" if not caps else "(" + ", ".join(f"v.{lname(c)}" for c in caps) + ")"
+            n = self.bindname()
+            back = ""
+            if caps:
+                back = " let v := { v with " + ", ".join(f"{lname(c)} := {proj(n + '.1', k, len(caps))}" for k, c in enumerate(caps)) + " };"
+            steps.append(f"Py.bind ({callee.lean} {'fuel ' if callee.fuel else ''}{st0} {' '.join(codes)}) fun {n} =>{back}")
+            return steps, f"{n}.2", parse_type(callee.ret)
+        # --- heap-allocated objects: `C(...)` allocates a record and yields its reference
+        if f in HEAP_CTORS and HEAP_CTORS[f]["cls"] in self.spec.heap:
+            hc = HEAP_CTORS[f]
+            C = hc["cls"]
+            given = dict(zip(hc["fields"], args))
+            given.update({k: x for k, x in kw.items() if k not in hc.get("ignore", [])})
+            if len(args) > len(hc["fields"]) or any(k not in STRUCTS[C] for k in given):
+                raise Untranslatable(f"{self.spec.lean}: constructor call `{ast.unparse(e)}`")
+            steps, ups = [], []
+            for k, x in given.items():
+                ft = parse_type(STRUCTS[C][k])
+                s0, c, t = self.tr(x, ft)
+                s0, c = self.coerce2(s0, c, t, ft)
+                steps += s0; ups.append(f"{lname(k)} := {c}")
+            for k, ctext in hc.get("fixed", {}).items():
+                s0, c, t = self.tr(ast.parse(ctext).body[0].value)
+                steps += s0; ups.append(f"{lname(k)} := {c}")
+            code, lv = self.heap_of(C)
+            n = self.bindname()
+            rec = f"{{ (default : {C}) with {', '.join(ups)} }}" if ups else f"(default : {C})"
+            new_v = lv(n + ".1")
+            steps.append(f"let {n} := Py.alloc {code} {rec}; let v := {new_v};")
+            return steps, f"{n}.2", f"Ref@{C}"
+        # --- a method of a heap-allocated object: the translated method, run on the heap (written back afterwards)
+        if isinstance(e.func, ast.Attribute) and e.func.attr in {m for (_, m) in REF_METHODS}:
+            try:
+                s0, rc, rt = self.tr(e.func.value)
+                s0, rc, rt = self.deref_opt(s0, rc, rt)
+            except Untranslatable:
+                rt = None
+            if rt is not None and is_ref(rt) and (ref_class(rt), e.func.attr) in REF_METHODS:
+                callee = by_lean_global[REF_METHODS[(ref_class(rt), e.func.attr)]]
+                steps, codes = list(s0), []
+                for x, pn in zip(args, callee.params[2:]):
+                    s1, c, t = self.tr(x, parse_type(callee.vars[pn]))
+                    s1, c = self.coerce2(s1, c, t, parse_type(callee.vars[pn]))
+                    steps += s1; codes.append(c)
+                if kw or len(args) != len(callee.params) - 2 or callee.fuel:
+                    raise Untranslatable(f"{self.spec.lean}: call `{ast.unparse(e)}`")
+                n = self.bindname()
+                hcode, lv = self.heap_of(ref_class(rt))          # the heap is read after the arguments were evaluated
+                new_v = lv(n + ".1")
+                steps.append(f"Py.bind ({callee.lean} {hcode} {rc} {' '.join(codes)}) fun {n} => let v := {new_v};")
+                return steps, f"{n}.2", parse_type(callee.ret)
+        # --- a NamedTuple of the source file: the tuple of its arguments
+        if f in self.namedtuples and not kw and len(args) == self.namedtuples[f]:
+            steps, codes = [], []
+            for x in args:
+                s0, c, t = self.tr(x, "PyAtom")
+                s0, c = self.coerce2(s0, c, t, "PyAtom")
+                steps += s0; codes.append(c)
+            return steps, f"(Py.Val.tup [{', '.join(codes)}])", "PyVal"
+        if f == "str.upper" and len(args) == 1 and not kw:
+            s0, c, t = self.tr(args[0])
+            if t in ("PyVal", "PyAtom"):
+                n = self.bindname()
+                s0, c, t = s0 + [f"Py.bind (Py.{t[2:]}.str? {c}) fun {n} =>"], n, "String"      # anything but a `str` is a TypeError
+            if t == "String":
+                return s0, f"(Py.strUpper {c})", "String"
+        if f == "reversed" and len(args) == 1:
+            s0, c, t = self.tr(args[0])
+            if isinstance(t, tuple) and t[0] == "List":
+                return s0, f"(({c}).reverse)", t
         # --- trees as column variables, node handles as row indices
         if isinstance(e.func, ast.Attribute) and ast.unparse(e.func.value) in self.spec.tree_cols:
             T = ast.unparse(e.func.value)
@@ -1040,7 +1207,7 @@ class FnTr:
                 pt = parse_type(callee.vars[pn]) if pn in callee.vars else None
                 s, c, t = self.tr(x, pt)
                 if pt is not None and t != pt and not (is_node(t) or is_node(pt)):
-                    c = self.coerce(c, t, pt)
+                    s, c = self.coerce2(s, c, t, pt)
                 steps += s; codes.append(c); argexpr[pn] = x
             for k in callee.params[len(codes):]:
                 # keyword arguments, then the defaults of the callee's own signature (read from its source)
@@ -1371,6 +1538,12 @@ class FnTr:
     def s_Pass(self, s):
         return None
 
+    def s_Nonlocal(self, s):
+        # a closure's `nonlocal` names are captured variables of its translation (its callback state)
+        if self.spec.nested and all(n in self.spec.captures for n in s.names):
+            return None
+        raise Untranslatable(f"{self.spec.lean}: `{ast.unparse(s)}`")
+
     def s_FunctionDef(self, s):
         if s.name in self.spec.closures:
             return None                      # translated separately; used at the `traverse(...)` call
@@ -1391,7 +1564,7 @@ class FnTr:
             meth, recv = e.func.attr, e.func.value
             if meth == "append" and len(e.args) == 1:
                 # a.append(x)  /  d[k].append(x)
-                if isinstance(recv, ast.Subscript):
+                if isinstance(recv, ast.Subscript) or (isinstance(recv, ast.Attribute) and self.is_ref_expr(recv.value)):
                     tgt = ast.Assign([recv], ast.BinOp(recv, ast.Add(), ast.List([e.args[0]], ast.Load())))
                     return self.s_Assign(tgt)
                 s0, a, ta = self.tr(recv)
@@ -1471,11 +1644,23 @@ class FnTr:
                 st, c, t = st + [f"Py.bind ({c}) fun {n0} =>"], n0, want
             if want is not None and t != want and isinstance(want, tuple) and want[0] == "List" and isinstance(t, tuple) and t[0] == "List":
                 c, t = self.coerce(c, t, want), want
+            if want in ("PyVal", "PyAtom") and t in ("String", "PyAtom") and t != want:
+                c, t = self.coerce(c, t, want), want
             key = self.assign_version(tgt.id, t)
             self.check_type(key, t, s)
             return self.chain(st, f".next {{ v with {lname(key)} := {c} }}")
         if isinstance(tgt, ast.Tuple) and all(isinstance(x, ast.Name) for x in tgt.elts):
             st, c, t = self.tr(s.value)
+            if t == "PyVal":
+                # unpacking a dynamically typed value: it must be a tuple of exactly that many items
+                n = self.bindname()
+                ups = []
+                for k, x in enumerate(tgt.elts):
+                    if x.id not in self.vars:
+                        self.vars[x.id] = "PyAtom"
+                    self.check_type(x.id, "PyAtom", s)
+                    ups.append(f"{lname(x.id)} := {n}.getD {k} default")
+                return self.chain(st + [f"Py.bind (Py.Val.unpack {c} {len(tgt.elts)}) fun {n} =>"], f".next {{ v with {', '.join(ups)} }}")
             parts = prod_parts(t, len(tgt.elts))
             n = len(tgt.elts)
             ups = []
@@ -1534,7 +1719,29 @@ class FnTr:
                     return self.chain(s2 + s1 + [f"Py.bind (Py.idx v.{lname(L.id)} {i}) fun {n1} =>",
                                                  f"Py.bind (Py.setIdx v.{lname(L.id)} {i} {{ {n1} with {lname(tgt.attr)} := {x} }}) fun {n2} =>"],
                                       ".next " + lv(n2))
-            st, c, t = self.tr(s.value)
+            if rt is not None and self.is_ref_expr(tgt.value):
+                # `o.f = e` on a heap-allocated object: a write through the reference (right-hand side first)
+                s2, x, tx = self.tr(s.value)
+                s0, rc, rt = self.tr(tgt.value)
+                s0, rc, rt = self.deref_opt(s0, rc, rt)
+                C = ref_class(rt)
+                if tgt.attr not in STRUCTS.get(C, {}):
+                    raise Untranslatable(f"{self.spec.lean}: assignment to `{ast.unparse(tgt)}`")
+                ft = parse_type(STRUCTS[C][tgt.attr])
+                s2, x = self.coerce2(s2, x, tx, ft)
+                steps = s2 + s0
+                hc, lv = self.heap_of(C)
+                o, h = self.bindname(), self.bindname()
+                steps += [f"Py.bind (Py.idx {hc} {rc}) fun {o} =>",
+                          f"Py.bind (Py.setIdx {hc} {rc} {{ {o} with {lname(tgt.attr)} := {x} }}) fun {h} =>"]
+                return self.chain(steps, ".next " + lv(h))
+            try:
+                _, _, ft = self.tr(tgt)
+            except Untranslatable:
+                ft = None
+            st, c, t = self.tr(s.value, ft)
+            if ft is not None and t != ft and isinstance(ft, tuple) and ft[0] == "Option":
+                c = self.coerce(c, t, ft)             # a value stored into a field that may also hold None
             lv = self.lvalue(tgt)
             return self.chain(st, ".next " + lv(c))
         if isinstance(tgt, ast.Subscript) and isinstance(tgt.slice, ast.Tuple) and len(tgt.slice.elts) == 2:
@@ -1636,8 +1843,22 @@ class FnTr:
                 val = isinstance(test.ops[0], ast.Is)
         return None if val is None else (val != neg)
 
+    def match_cond(self, p, m, t):
+        """the test of a value pattern (a constant, a member of an `Enum` of the source file) or of `P | Q`, against the subject `m : t`"""
+        if isinstance(p, ast.MatchOr):
+            return "(" + " || ".join(self.match_cond(q, m, t) for q in p.patterns) + ")"
+        if isinstance(p, ast.MatchValue) and (isinstance(p.value, ast.Constant) or ast.unparse(p.value) in self.enums):
+            _, cc, tc = self.tr(p.value)
+            if t in ("PyVal", "PyAtom") and tc == "String":
+                return f"(Py.{t[2:]}.eqStr {m} {cc})"          # a dynamically typed subject against a str constant
+            if tc != t or t not in ("Int", "String", "Bool"):
+                raise Untranslatable(f"{self.spec.lean}: `case {ast.unparse(p)}` against a subject of type {t}")
+            return f"(decide ({m} = {cc}))"
+        raise Untranslatable(f"{self.spec.lean}: pattern `case {ast.unparse(p)}`")
+
     def s_Match(self, s):
-        """`match e:` with constant patterns and a final wildcard: the first case whose constant equals the subject (`==`)"""
+        """`match e:` with value patterns (constants, `Enum` members), `|` alternatives and a final wildcard: the first case whose value
+        equals the subject (`==`); no case matching = nothing happens"""
         st, c, t = self.tr(s.subject)
         m = self.bindname()
         code = "Py.skip v"
@@ -1650,13 +1871,8 @@ class FnTr:
                 if k != len(s.cases) - 1:
                     raise Untranslatable("wildcard before the last case")
                 code = f"{body} v"
-            elif isinstance(p, ast.MatchValue) and isinstance(p.value, ast.Constant):
-                _, cc, tc = self.tr(p.value)
-                if tc != t or t not in ("Int", "String", "Bool"):
-                    raise Untranslatable(f"{self.spec.lean}: `case {ast.unparse(p)}` against a subject of type {t}")
-                code = f"if (decide ({m} = {cc})) then {body} v else {code}"
             else:
-                raise Untranslatable(f"{self.spec.lean}: pattern `case {ast.unparse(p)}`")
+                code = f"if {self.match_cond(p, m, t)} then {body} v else {code}"
         return self.chain(st + [f"let {m} := {c};"], code)
 
     def s_Return(self, s):
@@ -2008,7 +2224,7 @@ class FnTr:
                 raise Untranslatable(f"{sp.lean}: the default of `{pn}` is `{ast.unparse(pos[pn]) if pn in pos else None}`, the spec says `{dv}`")
         self.warn_sites = sorted((n.lineno, n.col_offset) for n in ast.walk(fdef)
                                  if isinstance(n, ast.Call) and ast.unparse(n.func) == "warnings.warn")
-        self.hoist = not (sp.fuel and (f"self.{sp.func}(" in ast.unparse(fdef) or any(
+        self.hoist = not (sp.rec_group or sp.fuel and (f"self.{sp.func}(" in ast.unparse(fdef) or any(
             isinstance(n, ast.Call) and ast.unparse(n.func) == sp.func for n in ast.walk(fdef))))
         stmts = fdef.body
         if sp.seg_from is not None or sp.seg_to is not None:
@@ -2045,8 +2261,10 @@ class FnTr:
         fuel = "(fuel : Nat) " if sp.fuel else ""
         dflt = "default"
         doc = (sp.doc or f"`{sp.file}::{(sp.cls + '.') if sp.cls else ''}{sp.func}`")
-        rec = sp.fuel and (f"self.{sp.func}" in ast.unparse(fdef) or any(
+        rec = sp.rec_group or sp.fuel and (f"self.{sp.func}(" in ast.unparse(fdef) or any(
             isinstance(n, ast.Call) and ast.unparse(n.func) == sp.func for n in ast.walk(fdef)))
+        if sp.rec_group and not sp.fuel:
+            raise Untranslatable(f"{sp.lean}: a member of a recursion group needs fuel")
         lines = [f"/-- variables of {doc} -/",
                  f"structure {sp.lean}.V {tps} where".replace("  ", " ").rstrip() if not self.all_tparams else f"structure {sp.lean}.V {tps} where",
                  fields]
@@ -2056,6 +2274,8 @@ class FnTr:
         Vt = f"({sp.lean}.V{tapp})" if self.all_tparams else f"{sp.lean}.V"
         if rec:
             # recursion: structural on the fuel
+            if sp.rec_group:
+                lines.append(MUTUAL_SPLIT)          # the members' definitions go into one `mutual` block (regenerate)
             lines.append(f"/-- body of {doc} (one level; `fuel` bounds the recursion depth and the loops) -/")
             lines.append(f"def {sp.lean} {tpsi} {cbb} : Nat → " + " → ".join(
                 [show_type(self.vars[p]) for p in sp.params] + (["σ"] if sp.callbacks else [])) + f" → Option {out_t}")
@@ -2119,6 +2339,10 @@ class FnTr:
         for nm, ty, code in self.aux:
             b = self.binders_for(code)
             lines.append(f"def {nm}{(' ' + b) if b else ''} : {ty} :=\n" + textwrap.indent(code, "  "))
+        if sp.fuel:
+            sig, cba_f = sig + " (fuel : Nat)", " fuel"
+        else:
+            cba_f = ""
         lines.append(f"def {sp.lean}.body{sig} : {Vt} → Py.Res {Vt} {ret_t} :=\n" + textwrap.indent(body, "  "))
         params = " ".join(f"({lname(p)} : {show_type(self.vars[p])})" for p in sp.params)
         init = ", ".join([f"{lname(p)} := {lname(p)}" for p in sp.params] + [f"{c} := {proj('s', k, len(cap_n))}" for k, c in enumerate(cap_n)])
@@ -2126,10 +2350,13 @@ class FnTr:
         cba = (" " + self.bargs_nofuel) if self.bargs_nofuel else ""
         lines.append(f"/-- {doc}: the closure as a state-passing function over its captured variables (`none` = it raised) -/")
         lines.append(f"def {sp.lean}{sig} (s : {S}) {params} : Option ({S} × {ret_t}) :=")
-        lines.append(f"  (Py.finish default ({sp.lean}.body{cba} {{ (default : {Vt}) with {init} }})).map fun r => ({out_s}, r.2)")
+        lines.append(f"  (Py.finish default ({sp.lean}.body{cba}{cba_f} {{ (default : {Vt}) with {init} }})).map fun r => ({out_s}, r.2)")
         return "\n".join(lines) + "\n"
 
+MUTUAL_SPLIT = "--MUTUAL-SPLIT--"
 STRUCT_CTORS = {}
+HEAP_CTORS = {}         # python constructor text -> {"cls": heap class, "fields": positional fields, "ignore": dropped keywords, "fixed": {field: python text}}
+REF_METHODS = {}        # (heap class, method name) -> lean name of its translation (params: heap, self, ...; out: the heap)
 NODE_METHODS = {}       # method name of `Tree.Node` -> lean name of its translation (filled by `spec(node_method=...)`)
 TREE_CALLEES = {}       # python callee text of a function taking (and updating) a whole tree -> lean name
 TREE_METHODS = {}       # method name of `Tree` / `SWCLike` -> lean name of its translation as a function of the tree's columns (`spec(tree_method=...)`)
@@ -2236,7 +2463,7 @@ SPECS: list[Fn] = []
 CALLEES: dict[str, str] = {}     # python call text -> lean name
 
 
-def spec(callee=None, node_method=None, tree_callee=None, tree_method=None, **kw):
+def spec(callee=None, node_method=None, tree_callee=None, tree_method=None, ref_method=None, **kw):
     f = Fn(**kw)
     SPECS.append(f)
     for c in callee or []:
@@ -2247,6 +2474,8 @@ def spec(callee=None, node_method=None, tree_callee=None, tree_method=None, **kw
         TREE_CALLEES[tree_callee] = f.lean
     if tree_method:
         TREE_METHODS[tree_method] = f.lean
+    if ref_method:
+        REF_METHODS[tuple(ref_method)] = f.lean
     return f
 
 
@@ -2468,6 +2697,7 @@ def regenerate(modules=None):
             for k, t in STRUCTS[name].items():
                 out.append(f"  {lname(k)} : {show_type(parse_type(t))}")
             out.append("deriving Repr, DecidableEq, Inhabited\n")
+        groups = {}
         for sp in SPECS:
             if sp.module != mod:
                 continue
@@ -2492,7 +2722,23 @@ def regenerate(modules=None):
                                 val = imported_const(nd.module, al.name, cache)
                                 if val is not None:
                                     tr.consts[al.asname or al.name] = val
-                out.append(tr.translate(fdef))
+                    elif isinstance(nd, ast.ClassDef) and [ast.unparse(b) for b in nd.bases] == ["Enum"]:
+                        # `class T(Enum): A = auto(); B = auto()`: the members' values are 1, 2, ... in the order of definition
+                        mem = [x for x in nd.body if isinstance(x, ast.Assign)]
+                        if mem and all(len(x.targets) == 1 and isinstance(x.targets[0], ast.Name) and ast.unparse(x.value) == "auto()" for x in mem):
+                            for k, x in enumerate(mem):
+                                tr.enums[f"{nd.name}.{x.targets[0].id}"] = k + 1
+                    elif isinstance(nd, ast.ClassDef) and [ast.unparse(b) for b in nd.bases] == ["NamedTuple"]:
+                        tr.namedtuples[nd.name] = sum(1 for x in nd.body if isinstance(x, ast.AnnAssign))
+                text = tr.translate(fdef)
+                if sp.rec_group:
+                    pre, _, dfn = text.partition(MUTUAL_SPLIT + "\n")
+                    out.append(pre)
+                    groups.setdefault(sp.rec_group, []).append(dfn)
+                    if sp is [x for x in SPECS if x.module == mod and x.rec_group == sp.rec_group][-1]:
+                        out.append("mutual\n" + "\n".join(groups[sp.rec_group]) + "end\n")
+                else:
+                    out.append(text)
             except Untranslatable as e:
                 fails.append(f"translate_algo: {sp.file}::{sp.func}: {e}")
                 out.append(f"-- UNTRANSLATABLE {sp.lean}: {e}\n")
